@@ -329,7 +329,7 @@ def main(args):
     rep = common.Report('C16', tier)
     rep.assumptions = ASSUMPTIONS
     rep.bounds = {'application_identifiers': len(entries), 'pairs': len([u for u in units if len(u['ais']) > 1])}
-    deadline = time.time() + (330 if tier == 'quick' else common.THOROUGH_S)
+    deadline = time.time() + (common.QUICK_S if tier == 'quick' else common.THOROUGH_S)
 
     def progress(done, total, res):
         if args.verbose:
